@@ -946,6 +946,9 @@ func (s *Server) processPublish(cl *Client, pk packets.Packet) error {
 
 	if pk.Properties.TopicAliasFlag && pk.Properties.TopicAlias > 0 { // [MQTT-3.3.2-11]
 		pk.TopicName = cl.State.TopicAliases.Inbound.Set(pk.Properties.TopicAlias, pk.TopicName)
+		if pk.TopicName == "" {
+			return packets.ErrTopicAliasInvalid // the alias was never bound on this connection [MQTT-3.3.2-7]
+		}
 	}
 
 	if pk.FixedHeader.Qos > s.Options.Capabilities.MaximumQos {
